@@ -60,6 +60,13 @@ add("C21", "exploration", "bounded stand-in only: rank_to_average, last_observed
 add("C27", "other", "bounded: each window function x partition/order/reverse specification x all small tables with total orders against a reference window evaluator; backends per the live catalogue, Polars when it returns. Call-site argument obligations are not built.",
     BOUNDED_TB, "run-time contract over an enumerated small scope (bounded stand-in); no obligation proved", "§5 C27")
 
+add("C22", "other", "bounded: all specifications of depth <= 2 x argument/return values (scalars, pandas and polars frames with right/wrong/missing/extra/null columns): raises TypeError <=> the oracle conforms() says violated; switch off => never raises; result returned unchanged. No obligation proved for this property.",
+    BOUNDED_TB, "run-time contract over an enumerated small scope (bounded stand-in); no obligation proved", "§5 C22")
+add("C25", "other", HYB + "PROVED for all inputs: ResultCache.get hits only for a stored key, returns a new object equal to the stored result and changes nothing; ResultCache.store leaves an equal result alone, else stores a private copy under exactly that key (frames as heap objects, so aliasing is visible); BOUNDED: make_cache_key / hash_data_frame separation of tables differing in a value, column name, shape or row order, and store/get histories.",
+    PYVC_TB + "; make_cache_key assumed a function of (model, sql, names and contents); pandas copy/equals contracts; " + BOUNDED_TB, "contract-based deductive verification of get/store (VCs from the real AST, z3) + run-time contracts over an enumerated scope for the hashing", "§5 C25")
+add("C26", "other", HYB + "PROVED for all inputs: the 10 builders forward every argument (join-key check flag included) through an eliminated order_rows and to the constructors, select_columns validates against its own step also when collapsing; BOUNDED: the constructors' rule checks on every enumerated prefix x violating/conforming step per rule, and no accepted pipeline raises a rule error at evaluation.",
+    PYVC_TB + "; constructors' rule checks not under contract; " + BOUNDED_TB, "contract-based deductive verification of the forwarding obligations (VCs from the real AST, z3) + run-time contracts over an enumerated scope for the rule checks", "§5 C26")
+
 NA = [("C02", "no PostgreSQL server or formal PostgreSQL semantics in the sandbox: no contract within reach can be discharged or even checked boundedly; dialect text paths are exercised under C04/C16 on SQLite as a labelled surrogate, which does not decide C02")]
 
 def main():
